@@ -342,10 +342,13 @@ pub(crate) fn install_clen_code(state: &mut State<'_>) {
     state.len_table = Table { codes: Codes::Codes, bits: 3 };
 }
 
-fn codelens_instance(r: usize) {
-    // r = lengths still to come (concrete per instance)
+/// One run-length item (code 16, 17 or 18) of the code-length sequence: the code itself is concrete and already in the
+/// bit register, its extra bits are a symbolic input byte (or missing: N_IN = 0), `r` lengths are still outstanding.
+fn codelens_instance(sym: u16, r: usize, n_in: usize, extra_val: u8) {
     const TOTAL: usize = 257 + 3; // HLIT = 257, HDIST = 3
-    let input: [u8; 1] = kani::any();
+    // the repeat count is concrete per instance (a symbolic count makes `fill` a symbolic-length store into the 14 KB
+    // decoder state: out of memory at 20 GB); the carried lengths stay symbolic
+    let input: [u8; 1] = [extra_val];
     let mut out = [0u8; 4];
     let mut win = [0u8; 8 + 64];
     let mut state = typed_state(&mut win, 0, Mode::CodeLens);
@@ -354,7 +357,6 @@ fn codelens_instance(r: usize) {
     state.ndist = 3;
     let have0 = TOTAL - r;
     state.have = have0;
-    // the lengths decoded so far: symbolic where it matters (the previous length and the end-of-block symbol)
     let prev: u16 = kani::any();
     kani::assume(prev <= 2);
     state.lens[have0 - 1] = prev;
@@ -366,109 +368,57 @@ fn codelens_instance(r: usize) {
             kani::assume(eob == prev);
         }
     }
-    // 4 bits already in the register + 1 input byte = 12 symbolic bits
-    const NB: u32 = 4;
-    let pv: u64 = kani::any();
-    state.bit_reader.prime(NB as u8, pv);
-    let pv = (pv & 15) as u32;
-    unsafe { state.bit_reader.update_slice(input.as_ptr(), 1) };
-    state.in_available = 1;
+    // the 3-bit code, LSB-first as it sits in the register: 16 = 101 -> 5, 17 = 110 -> 3, 18 = 111 -> 7
+    let (code_bits, extra, base): (u64, u32, usize) = match sym {
+        16 => (5, 2, 3),
+        17 => (3, 3, 3),
+        _ => (7, 7, 11),
+    };
+    state.bit_reader.prime(3, code_bits);
+    unsafe { state.bit_reader.update_slice(input.as_ptr(), n_in) };
+    state.in_available = n_in;
     state.writer = unsafe { Writer::new_uninit(out.as_mut_ptr(), 0) };
     // Z_TREES: the call returns right after the tables are built, so the decoder's main loop runs exactly once
     state.flush = InflateFlush::Trees;
     let rc = state.dispatch();
-    // ---- reference RLE decoder over the same 12 bits
-    const NBITS: u32 = NB + 8;
-    let v = pv | (input[0] as u32) << NB;
-    let mut pos = 0u32;
-    let mut have = have0;
-    let mut last = prev;
-    let mut ref_lens = [0u16; 12];
-    let mut err = false;
-    let mut k = 0;
-    while k < 6 && !err && have < TOTAL {
-        if pos + 2 > NBITS {
-            break;
-        }
-        let b0 = (v >> pos) & 1;
-        let b1 = (v >> (pos + 1)) & 1;
-        let (sym, clen) = if b0 == 0 {
-            (b1, 2)
-        } else {
-            if pos + 3 > NBITS {
-                break;
-            }
-            let b2 = (v >> (pos + 2)) & 1;
-            (match (b1, b2) {
-                (0, 0) => 2,
-                (0, 1) => 16,
-                (1, 0) => 17,
-                _ => 18,
-            }, 3)
-        };
-        let (extra, base) = match sym {
-            16 => (2, 3),
-            17 => (3, 3),
-            18 => (7, 11),
-            _ => (0, 1),
-        };
-        if pos + clen + extra > NBITS {
-            break; // item incomplete: wait for more input
-        }
-        let rep = base + ((v >> (pos + clen)) & ((1 << extra) - 1)) as usize;
-        pos += clen + extra;
-        let val = match sym {
-            16 => last,
-            17 | 18 => 0,
-            s => s as u16,
-        };
-        // (have == 0 cannot happen here: at least 248 lengths precede)
-        if have + rep > TOTAL {
-            err = true;
-        } else {
-            let mut j = 0;
-            while j < 12 {
-                if j >= have - have0 && j < have - have0 + rep {
-                    ref_lens[j] = val;
-                }
-                j += 1;
-            }
-            have += rep;
-            last = val;
-        }
-        k += 1;
-    }
-    let complete = !err && have == TOTAL;
-    let eob_len = if have0 > 256 { eob } else if complete || have > 256 { ref_lens[256 - have0] } else { 1 };
-    if err {
-        assert!(rc == ReturnCode::DataError && matches!(state.mode, Mode::Bad));
-    } else if complete {
-        if eob_len == 0 {
-            assert!(rc == ReturnCode::DataError && matches!(state.mode, Mode::Bad), "missing end-of-block code");
-        } else {
-            // tables built (stub), ready to decode symbols
-            assert!(rc == ReturnCode::Ok && matches!(state.mode, Mode::Len_));
-            assert!(state.have == TOTAL);
-        }
-    } else {
+    if n_in == 0 {
+        // the extra bits are missing: suspend with the code still in the register, nothing stored
         assert!(rc == ReturnCode::Ok && matches!(state.mode, Mode::CodeLens));
-        assert!(state.have == have);
-        // suspension keeps exactly the bits of the incomplete item (nothing of it is consumed), so the call can resume
-        assert!(state.bit_reader.bits_in_buffer() as u32 == NBITS - pos, "an incomplete item must stay in the bit register");
+        assert!(state.have == have0);
+        assert!(state.bit_reader.bits_in_buffer() == 3 && state.bit_reader.hold() == code_bits, "an incomplete item must stay in the bit register");
+        kani::cover!(true);
+    } else {
+        let rep = base + (input[0] as usize & ((1 << extra) - 1));
+        let val = if sym == 16 { prev } else { 0 };
+        if have0 + rep > TOTAL {
+            assert!(rc == ReturnCode::DataError && matches!(state.mode, Mode::Bad), "repeat past HLIT+HDIST");
+        } else {
+            // stored exactly `rep` copies
+            let j: usize = kani::any();
+            kani::assume(j < rep);
+            assert!(state.lens[have0 + j] == val);
+            if have0 + rep == TOTAL {
+                let eob_len = if have0 > 256 { eob } else { val };
+                if eob_len == 0 {
+                    assert!(rc == ReturnCode::DataError && matches!(state.mode, Mode::Bad), "missing end-of-block code");
+                } else {
+                    assert!(rc == ReturnCode::Ok && matches!(state.mode, Mode::Len_), "a run may end exactly at HLIT+HDIST");
+                    assert!(state.have == TOTAL);
+                }
+            } else {
+                // more lengths to come; whatever follows in the leftover bits is decoded by the same rules
+                assert!(matches!(rc, ReturnCode::Ok | ReturnCode::DataError));
+                assert!(state.have >= have0 + rep || matches!(state.mode, Mode::Bad));
+            }
+        }
+        kani::cover!(have0 + rep != TOTAL || rc == ReturnCode::Ok, "a run ends exactly at HLIT+HDIST");
+        kani::cover!(have0 + rep <= TOTAL || rc == ReturnCode::DataError);
     }
-    if !err {
-        let j: usize = kani::any();
-        kani::assume(j < 12 && j < have - have0);
-        assert!(state.lens[have0 + j] == ref_lens[j]);
-    }
-    kani::cover!(complete && eob_len != 0, "the sequence ends exactly at HLIT+HDIST");
-    kani::cover!(err);
-    kani::cover!(!err && !complete);
     core::mem::forget(state);
 }
 
 macro_rules! codelens_harness {
-    ($name:ident, $r:expr) => {
+    ($name:ident, $sym:expr, $r:expr, $n_in:expr, $x:expr) => {
         #[kani::proof]
         #[kani::unwind(14)]
         #[kani::stub(crate::inflate::inftrees::inflate_table, stub_table_ok)]
@@ -480,12 +430,19 @@ macro_rules! codelens_harness {
         #[kani::stub(crate::inflate::writer::Writer::copy_match, stub_copy_match_unreachable)]
         #[kani::stub(crate::inflate::writer::Writer::extend_from_window, stub_efw_unreachable)]
         fn $name() {
-            codelens_instance($r);
+            codelens_instance($sym, $r, $n_in, $x);
         }
     };
 }
-codelens_harness!(ki5c_codelens_r1, 1);
-codelens_harness!(ki5c_codelens_r3, 3);
-codelens_harness!(ki5c_codelens_r6, 6);
-codelens_harness!(ki5c_codelens_r11, 11);
-codelens_harness!(ki5c_codelens_r12, 12);
+// (code, lengths outstanding, input bytes, value of the extra bits): exact end, overrun by one, one short
+codelens_harness!(ki5c_codelens_16_exact, 16, 4, 1, 1);
+codelens_harness!(ki5c_codelens_16_over, 16, 3, 1, 1);
+codelens_harness!(ki5c_codelens_17_exact, 17, 6, 1, 3);
+codelens_harness!(ki5c_codelens_17_over, 17, 5, 1, 3);
+codelens_harness!(ki5c_codelens_17_short, 17, 7, 1, 3);
+codelens_harness!(ki5c_codelens_18_exact, 18, 11, 1, 0);
+codelens_harness!(ki5c_codelens_18_exact_long, 18, 12, 1, 1);
+codelens_harness!(ki5c_codelens_18_over, 18, 11, 1, 1);
+codelens_harness!(ki5c_codelens_16_suspend, 16, 5, 0, 0);
+codelens_harness!(ki5c_codelens_17_suspend, 17, 5, 0, 0);
+codelens_harness!(ki5c_codelens_18_suspend, 18, 20, 0, 0);
